@@ -510,7 +510,7 @@ func finish(o Obs, t *simrt.Task) (res Obs) {
 	if t.Aborted != "" {
 		o = Obs{Kind: "abort", Err: t.Aborted}
 	} else if t.Panic != "" {
-		o = Obs{Kind: "panic", Err: t.Panic}
+		o = Obs{Kind: "panic", Err: t.Panic + " @" + t.Stack}
 	}
 	o.Steps = t.Steps
 	return o
